@@ -1,0 +1,44 @@
+// SPDX-FileCopyrightText: 2026 The Pion community <https://pion.ly>
+// SPDX-License-Identifier: MIT
+
+//go:build verif
+
+package turn
+
+import (
+	"github.com/pion/turn/v5/internal/allocation"
+)
+
+// This file is compiled only with the `verif` build tag. It adds read-only observation
+// hooks for the external runtime-verification harness; it changes no behaviour.
+
+// VerifManagers returns the allocation managers, one per listener, in configuration order
+// (PacketConnConfigs first, then ListenerConfigs).
+func (s *Server) VerifManagers() []*allocation.Manager {
+	return s.allocationManagers
+}
+
+// VerifPendingTransactions returns the number of entries in the client's transaction table.
+func (c *Client) VerifPendingTransactions() int {
+	return c.trMap.Size()
+}
+
+// VerifLocksHeld names every client mutex that cannot be taken right now.
+func (c *Client) VerifLocksHeld() []string {
+	var held []string
+	if c.mutex.TryLock() {
+		c.mutex.Unlock()
+	} else {
+		held = append(held, "Client.mutex")
+	}
+	if c.mutexTrMap.TryLock() {
+		c.mutexTrMap.Unlock()
+	} else {
+		held = append(held, "Client.mutexTrMap")
+	}
+	if !c.trMap.VerifLockFree() {
+		held = append(held, "TransactionMap.mutex")
+	}
+
+	return held
+}
